@@ -2,6 +2,9 @@ import ComposeVerif.Lemmas.AuditCmd
 import ComposeVerif.Lemmas.Graph
 import ComposeVerif.Neg.C10
 import ComposeVerif.Lemmas.Consistency
+import ComposeVerif.Lemmas.Validate
+import ComposeVerif.Lemmas.Path
+import ComposeVerif.Gen.Tables
 /-!
 # C10 — a loaded project is referentially consistent; inconsistent models are rejected
 
@@ -242,3 +245,118 @@ example : (exactGraph exampleProj).Closed := exactGraph_closed exampleProj
 example : hasCycle (exactGraph exampleProj) = false := by decide
 
 end CV.Consistency
+
+/-! ## structural exclusivity checks on the merged tree (`validation.Validate`) -/
+namespace CV.Validate
+open CV CV.TPath
+
+/-- the `checks` table in the source now is the table the model was written against (patterns and checkers) -/
+theorem validate_table_is_source :
+    CV.Gen.validationChecks = table.map (fun r => (r.1, r.2.goName)) := by decide
+
+/-- no two patterns of the table can match the same path … -/
+theorem validate_table_exclusive : PairwiseExclusive table := by decide
+
+/-- … hence Go's random iteration over the `checks` map always selects the same checker -/
+theorem validate_table_order_irrelevant (t' : List (List String × Checker)) (hp : t'.Perm table) (x : TPath) :
+    firstMatch t' x = firstMatch table x :=
+  firstMatch_perm validate_table_exclusive hp x
+
+/-- **`Validate` returns nil iff every checked node of the tree satisfies its rule** (all trees; the statement on
+the right only speaks about membership, so it holds for every iteration order of every mapping) -/
+theorem validate_iff (t : Val) : validate t = .ok ↔ ValidTree t := by
+  rw [validate_ok_iff_failures]
+  unfold failures ValidTree
+  rw [failuresAt_nil_iff]
+  unfold AllOK
+  exact forall_congr' fun q => forall_congr' fun w => forall_congr' fun c =>
+    imp_congr_right fun _ => imp_congr_right fun _ => run_ok_iff c w
+
+/-- the decision procedure used by the harness agrees with the model -/
+theorem validTreeB_iff (t : Val) : validTreeB t = true ↔ ValidTree t := by
+  rw [← validate_iff, validate_ok_iff_failures]
+  unfold validTreeB
+  cases failures t <;> simp
+
+theorem reaches_top {top : Val.KVs} {sec name : String} {entries : Val.KVs} {v : Val}
+    (hroot : next TPath.root sec = [sec]) (hsec : firstMatch table [sec] = none) (hne : ([sec] : TPath) ≠ TPath.root)
+    (h1 : (sec, Val.map entries) ∈ top) (h2 : (name, v) ∈ entries) :
+    Reaches TPath.root (.map top) [sec, ghostify name] v := by
+  refine .inMap (by decide) h1 ?_
+  rw [hroot]
+  refine .inMap hsec h2 ?_
+  have : next [sec] name = [sec, ghostify name] := by
+    unfold next; simp [hne]
+  rw [this]
+  exact .here
+
+/-- **an external volume declared together with creation parameters is rejected**, wherever the two halves came from -/
+theorem validate_rejects_external_volume_with_parameters (top vols kvs : Val.KVs) (name k : String) (x : Val)
+    (h1 : ("volumes", Val.map vols) ∈ top) (h2 : (name, Val.map kvs) ∈ vols)
+    (hext : Val.lookup "external" kvs = some (.bool true)) (hk : (k, x) ∈ kvs) (hbad : externalAllowed k = false) :
+    validate (.map top) ≠ .ok := by
+  intro hok
+  have hv := (validate_iff _).mp hok _ _ .volume
+    (reaches_top (by decide) (by decide) (by decide) h1 h2) (by simp [firstMatch, table, pmatch])
+  rcases hv with h | ⟨kvs', h, hx⟩
+  · cases h
+  · cases h
+    rcases hx with h | h | ⟨-, h⟩
+    · rw [hext] at h; cases h
+    · rw [hext] at h; cases h
+    · have := h (k, x) hk
+      rw [hbad] at this; cases this
+
+/-- **a secret with none (and no driver / external) or several of its mutually exclusive sources is rejected** -/
+theorem validate_rejects_secret_sources (top secs kvs : Val.KVs) (name : String)
+    (h1 : ("secrets", Val.map secs) ∈ top) (h2 : (name, Val.map kvs) ∈ secs)
+    (hbad : countPresent ["file", "environment"] kvs > 1 ∨
+      (countPresent ["file", "environment"] kvs = 0 ∧ has "driver" kvs = false ∧ has "external" kvs = false)) :
+    validate (.map top) ≠ .ok := by
+  intro hok
+  have hv := (validate_iff _).mp hok _ _ (.fileObject ["file", "environment"])
+    (reaches_top (by decide) (by decide) (by decide) h1 h2) (by simp [firstMatch, table, pmatch])
+  obtain ⟨kvs', h, hx⟩ := hv
+  cases h
+  rcases hbad with hb | ⟨hb, hd, he⟩
+  · rcases hx with h | ⟨h, -⟩ <;> omega
+  · rcases hx with h | ⟨-, h | h⟩
+    · omega
+    · rw [hd] at h; cases h
+    · rw [he] at h; cases h
+
+/-- **a config with none (and no driver / external) or several of its mutually exclusive sources is rejected** -/
+theorem validate_rejects_config_sources (top cfgs kvs : Val.KVs) (name : String)
+    (h1 : ("configs", Val.map cfgs) ∈ top) (h2 : (name, Val.map kvs) ∈ cfgs)
+    (hbad : countPresent ["file", "environment", "content"] kvs > 1 ∨
+      (countPresent ["file", "environment", "content"] kvs = 0 ∧ has "driver" kvs = false ∧ has "external" kvs = false)) :
+    validate (.map top) ≠ .ok := by
+  intro hok
+  have hv := (validate_iff _).mp hok _ _ (.fileObject ["file", "environment", "content"])
+    (reaches_top (by decide) (by decide) (by decide) h1 h2) (by simp [firstMatch, table, pmatch])
+  obtain ⟨kvs', h, hx⟩ := hv
+  cases h
+  rcases hbad with hb | ⟨hb, hd, he⟩
+  · rcases hx with h | ⟨h, -⟩ <;> omega
+  · rcases hx with h | ⟨-, h | h⟩
+    · omega
+    · rw [hd] at h; cases h
+    · rw [he] at h; cases h
+
+/-! non-vacuity -/
+def exampleTree : Val :=
+  .map [("volumes", .map [("data", .null), ("ext", .map [("external", .bool true), ("name", .str "n")])]),
+        ("secrets", .map [("tok", .map [("file", .str "./t")])]),
+        ("configs", .map [("c", .map [("content", .str "x")])]),
+        ("services", .map [("a", .map [("image", .str "i"),
+            ("gpus", .seq [.map [("count", .int 1)]]),
+            ("develop", .map [("watch", .seq [.map [("path", .str "./p"), ("action", .str "rebuild")]])])])])]
+
+example : validate exampleTree = .ok := by decide
+example : ValidTree exampleTree := (validate_iff _).mp (by decide)
+example : validate (.map [("volumes", .map [("ext", .map [("external", .bool true), ("driver", .str "d")])])]) = .err .conflictingExternal := by decide
+example : validate (.map [("secrets", .map [("s", .map [("file", .str "f"), ("environment", .str "E")])])]) = .err .exclusive := by decide
+example : validate (.map [("configs", .map [("c", .map [("name", .str "n")])])]) = .err .missing := by decide
+example : validate (.map [("secrets", .map [("s", .str "oops")])]) = .panic "validation.init.checkFileObject" := by decide
+
+end CV.Validate
